@@ -373,3 +373,53 @@ func Sign(pac []byte, lay Layout, si, ki int, srvType int32, srvEtype int32, srv
 	copy(pac[lay.Offsets[ki]+4:], ksig[:SigLen(kdcType)])
 	return nil
 }
+
+// Resign recomputes the server signature of a (possibly malformed) PAC in place of the old one, as far as the
+// buffer table can be followed: the signature values of the type 6 and 7 buffers are zeroed, the checksum of the
+// whole is taken with the given key and written into the type 6 buffer. Returns a copy; unchanged bytes if the
+// table cannot be followed. Used to present mutated PACs the way a holder of the service key could.
+func Resign(in []byte, etype int32, key []byte) []byte {
+	b := append([]byte{}, in...)
+	if len(b) < 8 {
+		return b
+	}
+	n := int(binary.LittleEndian.Uint32(b))
+	type sb struct{ off, size int }
+	var srv *sb
+	var sigs []sb
+	for i := 0; i < n && 8+16*i+16 <= len(b); i++ {
+		t := binary.LittleEndian.Uint32(b[8+16*i:])
+		size := uint64(binary.LittleEndian.Uint32(b[8+16*i+4:]))
+		off := binary.LittleEndian.Uint64(b[8+16*i+8:])
+		if t != TypeServerSig && t != TypeKDCSig {
+			continue
+		}
+		if off > uint64(len(b)) || off+size > uint64(len(b)) || size < 4 {
+			return b
+		}
+		s := sb{int(off), int(size)}
+		sigs = append(sigs, s)
+		if t == TypeServerSig && srv == nil {
+			srv = &sigs[len(sigs)-1]
+		}
+	}
+	if srv == nil {
+		return b
+	}
+	for _, s := range sigs {
+		ct := int32(binary.LittleEndian.Uint32(b[s.off:]))
+		l := SigLen(ct)
+		if l == 0 || 4+l > s.size {
+			l = s.size - 4
+		}
+		for k := 0; k < l; k++ {
+			b[s.off+4+k] = 0
+		}
+	}
+	sig, err := rcrypto.Checksum(etype, key, 17, b)
+	if err != nil {
+		return b
+	}
+	copy(b[srv.off+4:srv.off+srv.size], sig)
+	return b
+}
